@@ -73,7 +73,7 @@ CHECKS = {
     'C14': (
         'property-based round-trip testing: model -> {JSON, pickle, generated model source} -> reload -> structural + behavioural comparison; asjson() termination/dumpability on parse results, models and hand-built cyclic structures',
         'C13\'s full-language grammars with loader-sniffing texts (f{..}, backslash-e-[, {..}, @.., __class__), falsy directive values, single keywords and single rules, reloaded through five routes (JSON, pickle, generated model source; JSON and pickle of a model that has already parsed): same rules/directives/keywords and equal outcomes on derived inputs; asjson() of every parse result/model returns within 5 s and json.dumps accepts it; cycles render as references. Exploration.',
-        'parser equality is observed on generated inputs; a constant whose value is None is not judged (indistinguishable from no literal in every serialised form)', 'DESIGN.md §3 C14'),
+        'parser equality is observed on generated inputs', 'DESIGN.md §3 C14'),
     'C15': (
         'property-based differential testing (four parsers): shipped bootstrap rules vs shipped bootstrap model vs compiled _tatsu.ebnf vs parser regenerated from it, on generated, hand-written and mutated grammar texts',
         'Generated full-language grammar texts (with and without rule terminators), ~45 hand-written texts for alternative/deprecated syntax and prefix-of-literal words, the repository\'s grammar files, and 1-3-edit mutations of all of them: same accept/reject by the four parsers and equal grammar models (canonical structure + pretty text) on accept. Exploration.',
@@ -103,6 +103,26 @@ CHECKS = {
         'DESIGN.md §3 C20'),
 }
 
+# families added in the third session (DESIGN.md A.7); appended to the level text
+ADDED = {
+    'C01': ' Also: rule includes and based rules (chained c < b, d < c; an include of a based rule; a rule based on an including rule) in the grammar text against their documented expansion written out for the reference.',
+    'C02': ' Also an EXHAUSTIVE family of scope templates (6 bodies with two differently named parts x 9 wrappers x 6 positions x 10 inputs x {no semantics, tagging}); keyword parameters spelled like Python keywords.',
+    'C04': ' A third of the non-left-recursive grammars have two rules whose names differ only in leading/trailing underscores.',
+    'C06': ' Semantics objects come in flavours (plain, unhashable like a plain @dataclass, all-equal like a frozen dataclass, falsy); on left-recursive grammars the actions of the leaders may return plain lists (a list must stay one operand as a seed).',
+    'C07': ' Also scalar-valued typed rules (1 / 1.0 / True reaching one node class; leaf comparison is type-aware) and based rules whose base and derived rule both define names.',
+    'C08': ' Grammars whose constants interpolate input text (which may itself hold an interpolation), constants over values that may be missing, indented multi-line constants; quote and escaped-backslash atoms in the regex family.',
+    'C09': ' In 40 % of the comment configurations a token is a prefix of the comment opener.',
+    'C10': ' Steps with BuilderConfig objects: one the caller does not keep (two calls in a row, judged against two independent fresh processes), one the caller keeps and hands to several calls, some with typedefs (also: the object is not altered); two semantics objects back to back; dataclass semantics (frozen-equal, unhashable).',
+    'C11': ' ignorecase may be switched OFF at parse time over an @@ignorecase grammar; one generated-parser object serves all parses of a case while the setting changes between them.',
+    'C12': ' (a) also gives the same source name to an edited text of the same length (exhaustive tier); (b) has a family of pass-through rules in an alternative that fails later (values served from the memos).',
+    'C13': ' Patterns with slashes and both quotes, escaped backslashes before slashes, the empty pattern; literal-like string parameters; padded and relatively indented constants; long keyword lists with blanks and hyphens; the left/right associative joins.',
+    'C14': ' Parses from other rules (start=) and the number of parseinfo entries under @@parseinfo are compared across the reload routes too; models compiled with a semantics module (inside a package / top level) or object are pickled and reloaded.',
+    'C15': ' Hand-written texts include empty-valued directives and the associative joins.',
+    'C17': ' A run-time monitor reports dunder attribute lookups made on the AST values by expression code (str.format field names); families for frame walking (gi_frame.f_back...f_globals), identifiers spelled with NFKC-equivalent characters, AST values beyond Latin-1, safe expressions through a real parse, and texts first judged where their names are unbound.',
+    'C18': ' The real-pool tier includes user exception classes that do not survive pickling, a run after an earlier interrupted run (fault sequence), and VisualPayload + path-taking function + deep recursion.',
+    'C19': ' Payload strings include every character str.splitlines() breaks at; histories include overlapping receive() iterations on one reader.',
+}
+
 NOT_YET = 'check not built yet in this session; see DESIGN.md §3 for the intended oracle'
 
 
@@ -119,7 +139,7 @@ def main():
             evidence_file=f'evidence/{pid}.json',
             replay_cmd_template=f'./check {pid} quick --replay {{path}}',
             engine='vf',
-            level_claimed=dict(category='exploration', text=text, design_ref=ref),
+            level_claimed=dict(category='exploration', text=text + ADDED.get(pid, ''), design_ref=ref + (', A.7' if pid in ADDED else '')),
             level_note=note,
             technique=tech,
         ))
